@@ -181,3 +181,9 @@ Proof.
   - apply H. exact Hin.
   - now rewrite Hd.
 Qed.
+
+Lemma may_take_kind g s sp sv : may_take g s sp = true -> nth_error (svcs g) s = Some sv -> kd sv = sp_kind sp.
+Proof.
+  unfold may_take. intros H Hs. rewrite Hs in H. apply andb_true_iff in H as [H _]. apply andb_true_iff in H as [_ H].
+  now apply kind_eqb_eq.
+Qed.
